@@ -623,6 +623,31 @@ func (m optModel) predictions() *Failure {
 	if !reflect.DeepEqual(lp, wantLP) {
 		return failf("leaf-prediction", "LeafPaths(true) under %+v = %v want %v", m, lp, wantLP)
 	}
+	// Elements / Attributes: the entries that begin with the attribute prefix are the attributes, reported without the
+	// prefix and nothing else taken off (labels that themselves begin with characters of the prefix)
+	{
+		labels := []string{"_id", "type", "attr_x", "-h", "@at", "aattr", "__x", "rate"}
+		em := map[string]interface{}{"e": "4", "tail": "5", "Z_": "6"}
+		for _, l := range labels {
+			em[ap+l] = "v"
+		}
+		am := mxj.Map{"r": em}
+		gotA, aerr := am.Attributes("r")
+		gotE, eerr := am.Elements("r")
+		var wantA, wantE []string
+		for k := range em {
+			if ap != "" && strings.HasPrefix(k, ap) {
+				wantA = append(wantA, k[len(ap):])
+			} else {
+				wantE = append(wantE, k)
+			}
+		}
+		sort.Strings(wantA)
+		sort.Strings(wantE)
+		if aerr != nil || eerr != nil || !reflect.DeepEqual(append([]string{}, gotA...), append([]string{}, wantA...)) || !reflect.DeepEqual(append([]string{}, gotE...), append([]string{}, wantE...)) {
+			return failf("attributes-prediction", "under %+v: Attributes = %v (%v) want %v; Elements = %v (%v) want %v", m, gotA, aerr, wantA, gotE, eerr, wantE)
+		}
+	}
 	// sub-key field separator
 	qm := mxj.Map{"r": map[string]interface{}{"l": []interface{}{map[string]interface{}{"a": "1", "b": "x"}, map[string]interface{}{"a": "2"}}}}
 	v, err := qm.ValuesForPath("r.l", "a"+m.FieldSep+"1")
